@@ -148,6 +148,17 @@ def generate(rng, tier):
     elif fn == "kruskal":
         case["edges"] = gen_edges(rng, n, True, rng.random() < 0.3, dense)
         case["kw"] = {"allow_forest": rng.random() < 0.5}
+        if rng.random() < 0.01:
+            # a long path whose edges arrive in weight order, each written (new node, component built so far) or the other way
+            # round, closed by one edge from the far end: the union-find behind the Python body must stay shallow
+            n = case["n"] = rng.choice([1100, 1500, 3000])
+            flip = rng.random() < 0.5
+            # (the path covers nodes 0..n-2; the last, dearest edge ties node n-1 to the far end, so it must be examined)
+            case["edges"] = [([i + 1, i, float(i)] if not flip else [i, i + 1, float(i)]) for i in range(n - 2)]
+            if rng.random() < 0.3:  # ... or always through the first node of the component
+                case["edges"] = [([i + 1, 0, float(i)] if not flip else [0, i + 1, float(i)]) for i in range(n - 2)]
+            case["edges"].append(rng.choice([[0, n - 1, float(n)], [n - 1, 0, float(n)], [n // 2, n - 1, float(n)]]))
+            return case
     elif fn == "pagerank_edges":
         case["edges"] = gen_edges(rng, n, False, False)
         case["kw"] = {"damping": rng.choice([0.5, 0.85, 0.99, 0.125]), "max_iter": rng.choice([0, 1, 2, 5, 100, 1000]),
